@@ -7,7 +7,7 @@ from lib import *
 wd = os.path.join(WORK, "warm-%d" % os.getpid())
 os.makedirs(wd, exist_ok=True)
 try:
-    for eng, prop in (("writer", "C05"), ("queue", "C08"), ("client", "C01")):
+    for eng, prop in (("writer", "C05"), ("queue", "C08"), ("client", "C01"), ("sock", "C13")):
         try:
             mod = __import__("eng_" + eng)
             res = Result(prop, "quick", 1, "model_checking")
